@@ -3,7 +3,7 @@
 (* The listed properties of the gateway session as predicates over         *)
 (* (pre-state s, event e, observation o, post-state s2).                   *)
 (*                                                                         *)
-(*   o = [outC, outB, bclosed, ended, st, nbuf, pend, reg, leaked, bjunk,  *)
+(*   o = [outC, outB, bclosed, ended, wasEnded, st, nbuf, pend, reg, leaked, bjunk,  *)
 (*        now]                                                             *)
 (*                                                                         *)
 (* Each Check_Cnn returns the set of violated clauses as tag strings       *)
@@ -36,6 +36,8 @@ Check_C01(s, e, o, s2) ==
              pubs == Sel(o.outB, {"PUBLISH"})
              d == "tit" \o ToString(p.tit) \o "-qos" \o ToString(p.qos)
          IN IF ~legal \/ (p.tit = 2 /\ p.swild) THEN {}
+            \* a predefined wildcard filter is not a topic name: nothing may be forwarded (cf. C24)
+            ELSE IF p.tit = 1 /\ name \in WildPredefNames THEN TagsIf(pubs # <<>>, Tag("C01", "forwarded-wildcard", d))
             ELSE IF name = "?none" THEN TagsIf(pubs # <<>>, Tag("C01", "forwarded-unresolvable", d))
             ELSE IF Len(pubs) # 1 THEN {Tag("C01", "not-exactly-one-publish", d)}
             ELSE LET m == pubs[1] IN
@@ -315,7 +317,7 @@ Check_C10(s, e, o, s2) ==
     TagsIf(s2.dying /\ s2.cause = "connect-timeout" /\ o.now >= s2.dieAt + Poll + 1 /\ ~o.ended,
            Tag("C10", "half-open-survives", "phase-" \o s.cx.phase))
     \cup TagsIf(s2.cause = "connect-timeout" /\ o.ended /\ ~o.bclosed, Tag("C10", "broker-conn-open", "x"))
-    \cup TagsIf(s.alive /\ s2.dying /\ s2.cause = "connect-timeout" /\ o.ended /\ o.now > s2.dieAt + Poll + 1 /\ e.t = "Adv",
+    \cup TagsIf(s.alive /\ s2.dying /\ s2.cause = "connect-timeout" /\ o.ended /\ ~o.wasEnded /\ o.now > s2.dieAt + Poll + 1 /\ e.t = "Adv",
                 Tag("C10", "half-open-reaped-late", "x"))
     \cup TagsIf(s.cx.on /\ ~s.dying /\ o.ended /\ ~s2.dying /\ FALSE, Tag("C10", "unused", "x"))
 
@@ -369,7 +371,7 @@ Check_C12(s, e, o, s2, obsLastB) ==
 Check_C13(s, e, o, s2) ==
     TagsIf(s2.dying /\ o.now >= s2.dieAt + Poll + 1 /\ ~o.ended, Tag("C13", "not-ended-in-time", s2.cause))
     \* quiet ticks are merged into the line of the tick at which run() returned: that tick is the end time
-    \cup TagsIf(s.alive /\ s2.dying /\ o.ended /\ o.now > s2.dieAt + Poll + 1 /\ e.t = "Adv",
+    \cup TagsIf(s.alive /\ s2.dying /\ o.ended /\ ~o.wasEnded /\ o.now > s2.dieAt + Poll + 1 /\ e.t = "Adv",
                 Tag("C13", "ended-late", s2.cause \o (IF s.st = "asleep" THEN "-asleep" ELSE "")))
     \cup TagsIf(o.ended /\ ~o.bclosed, Tag("C13", "broker-conn-open-after-end", s2.cause))
     \cup (IF ~s.dying /\ s2.dying /\ s2.cause # "client-disconnect" THEN
